@@ -95,6 +95,14 @@ func genBridge(t *rapid.T) Round {
 		r.P["pathFirst"] = 1 // the completion path fires alone first and must close the bridge by itself
 		r.Paths = []string{rapid.SampledFrom([]string{"source-eof", "target-eof"}).Draw(t, "firstPath")}
 	}
+	if r.P["variant"] == 0 && r.P["pathFirst"] == 0 && rapid.IntRange(0, 9).Draw(t, "streamCancel") == 0 {
+		// the bridge's context is cancelled while both ends keep streaming small writes and nobody
+		// closes the conns: the copy loops leave through their every-10000-iterations context check
+		r.P["pathFirst"] = 2
+		r.P["block"] = 0
+		r.P["bytes"] = 10400
+		r.Paths = []string{"cancel-while-streaming"}
+	}
 	return r
 }
 
@@ -158,7 +166,32 @@ func runBridge(r Round) *outcome {
 		settle(bridgePrefixes, base, 2*time.Second)
 	}
 	nb := r.p("bytes")
-	if nb > 0 && !waiting {
+	if r.p("pathFirst") == 2 {
+		// 1-byte reads on the bridge's ends: one loop iteration per byte
+		srcConn.ReadCap.Store(1)
+		tgtConn.ReadCap.Store(1)
+		// first half: both loops do 5000 iterations and park in Read; then the context is
+		// cancelled; the second half takes them past iteration 10000 where they look at it
+		buf := make([]byte, nb)
+		half := 5000
+		srcPeer.Write(buf[:half])
+		tgtPeer.Write(buf[:half])
+		if !pollUntil(3*time.Second, func() bool { return tgtPeer.Pending() >= half && srcPeer.Pending() >= half }) {
+			o.skipped = true
+			cleanupRound()
+			return o
+		}
+		cancel() // nobody closes anything: only the context says stop
+		srcPeer.Write(buf[half:])
+		tgtPeer.Write(buf[half:])
+		if !pollUntilBlocked(3*time.Second, 20*time.Second, func() bool { return b.IsClosed() && startReturned.Load() }) {
+			o.failf("C16/bridge/completion-path-did-not-close-bridge/cancel-while-streaming",
+				"context cancelled while both ends stream %d 1-byte reads each (> the 10000-iteration context check): bridge closed=%v, Start returned=%v", nb, b.IsClosed(), startReturned.Load())
+			cleanupRound()
+			return o
+		}
+		o.extraClass = append(o.extraClass, "copy-loops-left-through-context-check")
+	} else if nb > 0 && !waiting {
 		buf := make([]byte, nb)
 		srcPeer.Write(buf)
 		tgtPeer.Write(buf[:nb/3+1])
@@ -233,10 +266,12 @@ func runBridge(r Round) *outcome {
 	srcPeer.Close()
 	tgtPeer.Close()
 	if !stage1 {
-		if ok, _ := rc.waitBlocked(10*time.Second, 40*time.Second); ok {
+		if ok, _ := rc.waitBlocked(3*time.Second, 20*time.Second); ok {
 			o.failf("C16/bridge/close-or-start-returned-only-after-peers-went-away", "Close x%d / Start did not return within 3s after Close; returned once the far ends were closed. Goroutines at 3s:\n%s", r.Closers, stuck)
 		} else {
-			o.failf("C16/bridge/close-or-start-did-not-return", "Close x%d / Start did not return within 13s", r.Closers)
+			o.failf(fmt.Sprintf("C16/bridge/close-does-not-return/%s", blockedTops(base)), "Close x%d / Start did not return even after the far ends were closed. Stacks at 3s:\n%s", r.Closers, stuck)
+			o.abort = true
+			roundAborted = true
 			return o
 		}
 	}
